@@ -43,9 +43,11 @@ Open Scope Z_scope.
 Section NeighborInstr.
   Context {FO : FloatOps}.
 
-  (* Rust's f32::max *)
+  (* Rust's f32::max: a NaN operand yields the other operand.  A NaN [b] needs no
+     test of its own: the comparison is then unordered, [flt a b] is false and
+     [a] is returned. *)
   Definition fmax_rust (a b : f32) : f32 :=
-    if f_is_nan a then b else if f_is_nan b then a else if flt a b then b else a.
+    if f_is_nan a then b else if flt a b then b else a.
 
   (* the operand corrections ("All values are corrected by max-min") *)
   Definition nbr_size (t2 : Z) : Z := Z.max t2 0.
